@@ -145,6 +145,9 @@ func c04Agree(rc *simrt.RunCtx, what, tamper string, sp hsSpec, cli, srv *party)
 	case !eqBytes(cli.data.AuthData(), sp.auth):
 		got := cli.data.AuthData()
 		bad("auth-payload", "the initiator holds %d auth bytes that differ from the %d bytes the responder sent (first difference at %d)", len(got), len(sp.auth), firstDiff(got, sp.auth))
+	case !eqBytes(srv.data.AuthData(), sp.auth):
+		got := srv.data.AuthData()
+		bad("auth-payload-responder", "the handshake changed the responder's own auth payload (%d bytes, first difference at %d): what it holds - and will send next time - is no longer what the initiator holds", len(got), firstDiff(got, sp.auth))
 	case (len(cli.gotKeys) > 0) != (len(srv.gotKeys) > 0):
 		bad("publication", "the remote static key was published on one side only (initiator %v, responder %v)", len(cli.gotKeys) > 0, len(srv.gotKeys) > 0)
 	case (cm.version >= 2) != (len(cli.gotKeys) > 0):
@@ -367,6 +370,7 @@ func c04Repeat(rc *simrt.RunCtx) {
 	screds := NewNoiseGrpcConn(sdata, WithMaxHandshakeVersion(maxV))
 	rounds := 2 + rc.Pick(4, "wl.rounds")
 	var hist []string
+	var prevAuth []byte
 	for i := 0; i < rounds && !rc.Failed(); i++ {
 		var auth []byte
 		switch rc.Pick(5, "wl.auth") {
@@ -379,10 +383,21 @@ func c04Repeat(rc *simrt.RunCtx) {
 		default:
 			auth = marker(uint64(i)+rc.Seed(), 50+rc.Pick(400, "wl.authlen"))
 		}
-		// the server side sets what it will send this time
-		sdata.mu.Lock()
-		sdata.authData = auth
-		sdata.mu.Unlock()
+		// the server side sets what it will send this time (a slice of its
+		// own, with or without spare capacity) - or, one time in three,
+		// keeps what it holds from the previous handshake
+		if i > 0 && rc.Pick(3, "wl.auth-keep") == 0 {
+			auth = prevAuth
+		} else {
+			var own []byte
+			if auth != nil {
+				own = append(make([]byte, 0, len(auth)+[]int{0, 16, 64}[rc.Pick(3, "wl.auth-spare-capacity")]), auth...)
+			}
+			sdata.mu.Lock()
+			sdata.authData = own
+			sdata.mu.Unlock()
+		}
+		prevAuth = auth
 		pattern := cdata.HandshakePattern().Name
 		hist = append(hist, fmt.Sprintf("%s/%d", pattern, len(auth)))
 		ca, cb := newDuplex()
